@@ -64,7 +64,7 @@ pub fn run(tier: &str, seed: u64, widen: bool) -> Report {
         return rep;
     }
     let mut rng = Rng::new(seed);
-    let n = if widen { 3000 } else if tier == "thorough" { 1500 } else { 96 };
+    let n = if widen { 3000 } else if tier == "thorough" { 1500 } else { 192 };
     let cfg = GenCfg::default();
     let progs: Vec<core::Program> = (0..n).map(|_| core::gen_program(&mut rng, &cfg)).collect();
     let sources: Vec<String> = progs.iter().map(|p| p.capy()).collect();
